@@ -235,6 +235,14 @@ def discharge(tr, hyps, goal, stats, budget_s=30.0, quick_ms=3000, rules=None):
         stats.unsat += 1
         stats.by_stage["normal-form:unsat"] = stats.by_stage.get("normal-form:unsat", 0) + 1
         return "unsat", None
+    env = random_counterexample(hyps, goal)
+    if env is not None:
+        # a concrete falsifying assignment found by evaluation (exact rational arithmetic): the caller replays it on the
+        # float build before anything is reported; z3 is not needed for the `sat` direction here
+        stats.queries += 1
+        stats.sat += 1
+        stats.by_stage["sampled-model:sat"] = stats.by_stage.get("sampled-model:sat", 0) + 1
+        return "sat", env
     ng = tr.b(X.bnot(goal))
     zh = [tr.b(h) for h in hyps]
     ax = list(tr.axioms)
@@ -250,6 +258,41 @@ def discharge(tr, hyps, goal, stats, budget_s=30.0, quick_ms=3000, rules=None):
         if r in ("unsat", "sat"):
             return r, m
     return "unknown", None
+
+
+def random_counterexample(hyps, goal, tries=24):
+    """look for an assignment (small rationals / integers) that satisfies every hypothesis and falsifies the goal, by exact
+    evaluation.  Only attempted when no algebraic/uninterpreted atoms are involved.  Returns env or None."""
+    import random
+    vs = {}
+    seen = set()
+    for n in list(hyps) + [goal]:
+        X.variables(n, vs, seen)
+    for node_id in seen:
+        n = X._nodes[node_id]
+        if isinstance(n, X.E) and n.op in ("sqrt", "uf"):
+            return None
+    if not vs or len(vs) > 400:
+        return None
+    rng = random.Random(12345)
+    for t in range(tries):
+        env = {}
+        for name, v in vs.items():
+            if isinstance(v, X.B):
+                env[name] = rng.random() < 0.5
+            elif v.sort == "I":
+                env[name] = rng.randint(-2, 3)
+            else:
+                env[name] = Fraction(rng.randint(-12, 12), rng.choice([1, 2, 3, 4, 5, 7])) if t else Fraction(rng.randint(1, 9), 4)
+        memo = {}
+        try:
+            if not all(X.evaluate_b(h, env, memo) for h in hyps):
+                continue
+            if not X.evaluate_b(goal, env, memo):
+                return env
+        except (ZeroDivisionError, KeyError, OverflowError):
+            continue
+    return None
 
 
 def feasible(tr, hyps, stats, timeout_ms=200):
